@@ -76,7 +76,7 @@ fn fresh_values(kind: &FieldKind, cur: &Value, rng: &mut Rng, n: usize) -> Vec<(
 	for _ in 0..n {
 		match kind {
 			FieldKind::Period => {
-				let p = rng.below(P::MAX as u64 + 1).min(P::MAX as u64);
+				let p = rng.below((P::MAX as u64).saturating_add(1)).min(P::MAX as u64);
 				out.push((p.to_string(), json!(p)));
 			}
 			FieldKind::Float => {
@@ -99,7 +99,7 @@ fn fresh_values(kind: &FieldKind, cur: &Value, rng: &mut Rng, n: usize) -> Vec<(
 			}
 			FieldKind::Ma => {
 				let k = *rng.pick(&MA_KEYS);
-				let p = rng.below(P::MAX as u64 + 1).min(P::MAX as u64);
+				let p = rng.below((P::MAX as u64).saturating_add(1)).min(P::MAX as u64);
 				let mut m = Map::new();
 				m.insert(k.to_string(), json!(p));
 				out.push((ma_text(k, p), Value::Object(m)));
